@@ -8,7 +8,7 @@ ROOT = os.path.dirname(os.path.dirname(os.path.abspath(__file__)))
 CHECKS = {
     "C01": (
         "runtime monitor: generated transaction histories through report::process, judged by a reference book-keeping model (accept / reject / may / unspecified), hook events as branch evidence",
-        "10^5 (quick) / 6*10^6 (thorough) ledgers whose last transaction is shaped onto each branch of the balance predicate (exact zero, sub-unit offsets around the half-even rounding boundary, zero next to non-zero, two commodities same/opposite sign, costs, lots, expressions, omitted amounts) run through the real report::process; acceptance, the transaction named in the diagnostic and stored amounts are compared with an exact-rational reference model. Held on the executions produced; hook counters show every branch of check_balance was driven.",
+        "1.2*10^5 (quick) / 1.5*10^7 (thorough) ledgers (a quarter written through declared aliases, one in six cut into included files, some with magnitudes up to 2.5*10^19 or negative prices) whose last transaction is shaped onto each branch of the balance predicate (exact zero, sub-unit offsets around the half-even rounding boundary, zero next to non-zero, two commodities same/opposite sign, costs, lots, expressions, omitted amounts) run through the real report::process; acceptance, the transaction named in the diagnostic and stored amounts are compared with an exact-rational reference model. Held on the executions produced; hook counters show every branch of check_balance was driven.",
         "Trusted: harness/src/model/book.rs and q.rs (exact rationals); ill-formed postings and the implied-exchange case are unspecified by the statement and only checked for no-crash.",
         "4/C01",
     ),
@@ -20,7 +20,7 @@ CHECKS = {
     ),
     "C03": (
         "runtime monitor: omitted / assigned amounts at every position, judged by the reference model on Ledger::transactions() and Ledger::balance()",
-        "Inferred posting amounts (multi-commodity), assigned amounts (X minus previous balance, bare zero), final balances of every account, and the rejection of two unconstrained postings and of `= 0` over several commodities are compared exactly with the reference model over 10^5 / 6*10^6 generated histories.",
+        "Inferred posting amounts (multi-commodity), assigned amounts (X minus previous balance, bare zero), final balances of every account, and the rejection of two unconstrained postings and of `= 0` over several commodities are compared exactly with the reference model over 1.2*10^5 / 10^7 generated histories (aliases, include trees, negative prices, huge magnitudes).",
         "Trusted: the reference model; exact comparison is possible because generated values have finite decimal expansions well inside the Decimal range.",
         "4/C03",
     ),
@@ -32,7 +32,7 @@ CHECKS = {
     ),
     "C05": (
         "runtime monitor: grammar-driven generator from doc/syntax.md, three oracles (intended tree, parse∘format = parse, format idempotent), greedy feature minimisation for violation classes",
-        "Texts covering every production of doc/syntax.md with hostile whitespace, CRLF, EOF-terminated last lines and Unicode are parsed and formatted by the real code; the parsed entries must equal the generator's intended tree, formatting must preserve the canonical meaning dump and be byte-idempotent. 4*10^5 (quick) / 2*10^7 (thorough) texts.",
+        "Texts covering every production of doc/syntax.md with hostile whitespace, CRLF, EOF-terminated last lines and Unicode are parsed and formatted by the real code; the parsed entries must equal the generator's intended tree, formatting must preserve the canonical meaning dump and be byte-idempotent. 6*10^4 (quick) / 2*10^7 (thorough) texts.",
         "Trusted: my reading of doc/syntax.md (narrowings listed in the evidence rule) and the canonical dump in harness/src/gen/syntax.rs.",
         "4/C05",
     ),
@@ -44,13 +44,13 @@ CHECKS = {
     ),
     "C07": (
         "runtime monitor: exhaustive short strings + random long literals through the real scanner/printer, judged by an independent recogniser; okane format echo",
-        "Every string over {0,1,5,9,',','.','-'} up to length 8 (quick) / 10 (thorough) and over the full 13-symbol alphabet up to 6 / 7, plus random near-valid literals up to 45 digits and literals embedded in every syntactic position, are pushed through PrettyDecimal::from_str/to_string, the ledger parser and `okane format`; an independent recogniser with exact (mantissa, scale) decides accept/reject/value. Exhaustive below the stated lengths, sampled above.",
+        "Every string over {0,1,5,9,',','.','-'} up to length 8 (quick) / 10 (thorough) and over the full 13-symbol alphabet up to 6 / 7, plus random near-valid literals up to 45 digits (one in five within a few units of 2^31 ... 2^128, 10^18, 10^28, 10^29) and literals embedded in every syntactic position, are pushed through PrettyDecimal::from_str/to_string, the ledger parser and `okane format`; an independent recogniser with exact (mantissa, scale) decides accept/reject/value. Exhaustive below the stated lengths, sampled above.",
         "Trusted: the recogniser in harness/src/model/num.rs (60 lines, unit-tested); representable = 96-bit mantissa and <= 28 decimals; `.5`-style literals are unspecified.",
         "4/C07",
     ),
     "C08": (
         "runtime monitor: exhaustive small expression trees + random larger ones through Ledger::eval, posting amount, cost, assertion, lot price and `okane primitive eval`, judged by an exact-rational three-valued reference evaluator",
-        "All 138,828 expressions with <= 3 leaves (6 literals x optional unary minus x 4 operators x 5 parenthesisation shapes) and 4*10^4 (quick) / 3*10^6 (thorough) random trees up to depth 4 / 8 leaves, with operators rendered with and without surrounding spaces, are evaluated by the real code in every position an expression can appear; values must equal exact rational arithmetic (left fold, precedence, commodity typing), ill-typed expressions must be rejected, the inferred sibling must be the negation. Exhaustive below 4 leaves, sampled above.",
+        "All 138,828 expressions with <= 3 leaves (6 literals x optional unary minus x 4 operators x 5 parenthesisation shapes) and 4*10^4 (quick) / 2*10^7 (thorough) random trees up to depth 4 / 8 leaves, with operators rendered with and without surrounding spaces, are evaluated by the real code in every position an expression can appear; values must equal exact rational arithmetic (left fold, precedence, commodity typing), ill-typed expressions must be rejected, the inferred sibling must be the negation. Exhaustive below 4 leaves, sampled above.",
         "Trusted: harness/src/model/expr.rs (unit-tested on the precedence/associativity examples). number/commodity, commodity/commodity and one-nonzero-commodity-next-to-zero sums are unspecified. Comparison is exact unless an intermediate value is not a 96-bit/28-place decimal (then 1e-20 relative).",
         "4/C08",
     ),
@@ -62,19 +62,19 @@ CHECKS = {
     ),
     "C09": (
         "runtime monitor: generated price scenarios (ledger-derived events in five written forms + price-DB lines) queried for every pair and boundary date on one Ledger; rates compared with a brute-force reference over all simple chains; hook distance triple as secondary clause",
-        "6*10^3 (quick) / 4*10^5 (thorough) scenarios of 3-5 commodities and 3-12 dated price events (cycles, disconnected parts, parallel ledger/price-DB prices, several prices per date), each queried ~160-240 times (all ordered pairs x d-1/d/d+1 of every event date, shuffled, sharing the rate-table cache): the observed rate must be the rate of a chain that is optimal by (ledger-derived steps, steps, staleness) using per step the most recent record on or before the date, reciprocal for the reverse direction, identity for A->A, failure when no chain exists; price-DB records displace ledger ones for the pair.",
+        "6*10^3 (quick) / 1.5*10^6 (thorough) scenarios of 3-5 commodities and 3-12 dated price events (cycles, disconnected parts, parallel ledger/price-DB prices, several prices per date), each queried ~160-240 times (all ordered pairs x d-1/d/d+1 of every event date, shuffled, sharing the rate-table cache): the observed rate must be the rate of a chain that is optimal by (ledger-derived steps, steps, staleness) using per step the most recent record on or before the date, reciprocal for the reverse direction, identity for A->A, failure when no chain exists; price-DB records displace ledger ones for the pair.",
         "Trusted: harness/src/model/price.rs (unit-tested); 1e-18 relative tolerance; either reading of chain staleness accepted for the rate, the code's own (stalest step) for the hook clause.",
         "4/C09",
     ),
     "C10": (
         "runtime monitor: accepted multi-commodity ledgers with ledger-derived and price-DB prices, 12 converted-balance queries each (targets x historical/up-to-date x ranges) on one Ledger; expected totals from the code's own register and the C09 reference price model; CLI sample",
-        "10^4 (quick) / 6*10^5 (thorough) ledgers: for every target commodity, both conversion strategies, report dates before/inside/after the price history and whole/closed/half-open date ranges, Ledger::balance with a conversion must return per account the sum of every holding (or, historically, every posting at its own date) times the reference rate, leave amounts already in T unchanged, show nothing in another commodity, be rounded only once to T's precision, and must fail whenever a needed rate does not exist on or before the relevant date. About half of the queries exercise the must-fail branch.",
+        "10^4 (quick) / 2*10^6 (thorough) ledgers: for every target commodity, both conversion strategies, report dates before/inside/after the price history and whole/closed/half-open date ranges, Ledger::balance with a conversion must return per account the sum of every holding (or, historically, every posting at its own date) times the reference rate, leave amounts already in T unchanged, show nothing in another commodity, be rounded only once to T's precision, and must fail whenever a needed rate does not exist on or before the relevant date. About half of the queries exercise the must-fail branch.",
         "Trusted: harness/src/model/price.rs; price events read off the written postings (cost, else lot). Queries with several admissible rates are counted, not judged. Tolerance 1e-18 of the magnitude of the converted terms, ties at the rounding boundary accept both neighbours.",
         "4/C10",
     ),
     "C11": (
         "runtime monitor: order-sensitive accepted ledgers cut into random include trees (literal, parent-relative, glob, decoys, no-match) on the in-memory and the real file system; delivered (path, entry, line) sequence and reports compared with the unsplit ledger",
-        "1.2*10^4 (quick) / 6*10^5 (thorough) trees of depth <= 3 (about 8 files each): Loader::load must deliver exactly the written entries in the written order with each entry's own file and first line, never an include line; report::process on the tree must give the stored postings and balances of the unsplit text; `okane balance/register/primitive flatten` stdout must be identical (sample); an include that matches nothing (or only dot-files / deeper files) must fail on both file systems.",
+        "1.2*10^4 (quick) / 2.5*10^5 (thorough) trees of depth <= 3 (about 8 files each; a third with one file included from two places, a third with includes of zero-byte files): Loader::load must deliver exactly the written entries in the written order with each entry's own file and first line, never an include line; report::process on the tree must give the stored postings and balances of the unsplit text; `okane balance/register/primitive flatten` stdout must be identical (sample); an include that matches nothing (or only dot-files / deeper files) must fail on both file systems.",
         "Trusted: the tree builder (expected flattening known by construction); byte-wise path order. One genuine defect found and fixed (FakeFileSystem did not resolve `..`).",
         "4/C11",
     ),
